@@ -485,4 +485,14 @@ def rule_taken_at_call_site(ctx):
             "ProofOutline::from_specification receives taken = input predicates + predicates of the left formulas + predicates of the renamed right formulas")
 
 
-RULES = [rule_sequencing, rule_induction, rule_definition, rule_from_specification, rule_general_lemma, rule_taken_at_call_site]
+def rule_guard_printed_as_meant(ctx):
+    """the induction obligations are handed to the prover as TPTP text: the guard `N >= n` of the step and of the lemma itself is an integer
+    comparison and goes through the printer's integer relation table, which must print each relation as itself (C06's table obligations) -
+    `$greater` for `>=` would leave the case N = n unproven and still hand the full lemma on"""
+    from . import c06
+    sub = type(ctx)(ctx.prop, ctx.tier, ctx.facts)
+    c06.rule_tokens(sub)
+    ctx.obls.extend(o for o in sub.obls if o["key"].startswith("TAB-MAP:repr_"))
+
+
+RULES = [rule_sequencing, rule_induction, rule_definition, rule_from_specification, rule_general_lemma, rule_taken_at_call_site, rule_guard_printed_as_meant]
